@@ -28,13 +28,33 @@ from holopy.core.errors import raise_fitting_api_error
 from holopy.scattering.errors import (MultisphereFailure, TmatrixFailure,
                                       InvalidScatterer, MissingParameter)
 from holopy.scattering.interface import calc_holo, interpret_theory
-from holopy.scattering.scatterer import RigidCluster
+from holopy.scattering.scatterer import RigidCluster, Scatterers
 from holopy.inference import prior
 from holopy.core.mapping import Mapper, read_map, edit_map_indices
 
 
 OPTICS_KEYS = ['medium_index', 'illum_wavelen',
                'illum_polarization', 'noise_sd']
+
+
+def _keeping_clusters(scatterer, parameters):
+    # scatterer.from_parameters(parameters), except that a RigidCluster (also
+    # one that is a member of a collection) stays a RigidCluster: its own
+    # from_parameters returns the rotated and translated Spheres, which cannot
+    # be built from priors and forget the rotation and translation parameters
+    if isinstance(scatterer, RigidCluster):
+        return RigidCluster(
+            scatterer.spheres.from_parameters(parameters),
+            translation=parameters.get('translation', scatterer.translation),
+            rotation=parameters.get('rotation', scatterer.rotation))
+    if isinstance(scatterer, Scatterers):
+        fields = dict(scatterer._iteritems())
+        fields['scatterers'] = [_keeping_clusters(member, {
+            key.partition(':')[2]: val for key, val in parameters.items()
+            if key.partition(':')[0] == str(i)})
+            for i, member in enumerate(scatterer.scatterers)]
+        return type(scatterer)(**fields)
+    return scatterer.from_parameters(parameters)
 
 
 class Model(HoloPyObject):
@@ -126,18 +146,7 @@ class Model(HoloPyObject):
 
         dummy_scatterer = fields['_dummy_scatterer']
         scatterer_parameters = read_map(maps['scatterer'], parameters)
-        if isinstance(dummy_scatterer, RigidCluster):
-            # RigidCluster.from_parameters returns the rotated and translated
-            # Spheres, which cannot be built from priors and would no longer
-            # be a RigidCluster
-            scatterer = RigidCluster(
-                dummy_scatterer.spheres.from_parameters(scatterer_parameters),
-                translation=scatterer_parameters.get(
-                    'translation', dummy_scatterer.translation),
-                rotation=scatterer_parameters.get(
-                    'rotation', dummy_scatterer.rotation))
-        else:
-            scatterer = dummy_scatterer.from_parameters(scatterer_parameters)
+        scatterer = _keeping_clusters(dummy_scatterer, scatterer_parameters)
         theory = fields['theory'].from_parameters(
             read_map(maps['theory'], parameters))
         kwargs = {'scatterer': scatterer, 'theory': theory,
@@ -238,12 +247,7 @@ class Model(HoloPyObject):
                 dummy_parameters[key] = [0 for _ in value]
             else:
                 dummy_parameters[key] = 0
-        if isinstance(scatterer, RigidCluster):
-            # RigidCluster.from_parameters returns the equivalent Spheres,
-            # which would forget the rotation and translation parameters
-            return RigidCluster(
-                scatterer.spheres.from_parameters(dummy_parameters))
-        return scatterer.from_parameters(dummy_parameters)
+        return _keeping_clusters(scatterer, dummy_parameters)
 
     def ensure_parameters_are_listlike(self, pars):
         if isinstance(pars, dict):
